@@ -140,5 +140,10 @@ theorem exitSteps_spec (ord : DropOrder) (fs : List Field) :
       refine ⟨a, ?_, ?_, d⟩
       · rw [b]; simp [List.contains_cons]
       · rw [c]; simp [List.contains_cons]
+    | unknown =>
+      obtain ⟨a, b, c, d⟩ := ih { ms := ems, panicking := epk, newPanics := enp, abort := false, lockHeld := elh, verifs := evf } ⟨rfl, h2⟩
+      refine ⟨a, ?_, ?_, d⟩
+      · rw [b]; simp [List.contains_cons]
+      · rw [c]; simp [List.contains_cons]
 
 end Inj.Panic
